@@ -202,15 +202,30 @@ func runSort(dir string, seed int64, n int) {
 			limit = g.N(5)
 		}
 		args := map[string]interface{}{"docs": vals(docs), "q": table.Val(q), "sort": table.Val(srt), "skip": skip, "limit": limit}
+		decoys := i%2 == 1 // other documents are inserted in between and deleted again: the order of the rest is kept
 		reset := func() {
 			coll.Drop(ctx)
 			if len(docs) > 0 {
-				list := make([]interface{}, 0, len(docs))
-				for _, d := range docs {
+				list := make([]interface{}, 0, 2*len(docs))
+				var gone []interface{}
+				for j, d := range docs {
+					if decoys && (j%3 == 0 || j == len(docs)/2) {
+						id := "decoy-" + strconv.Itoa(j)
+						gone = append(gone, id)
+						list = append(list, bson.D{{Key: "_id", Value: id}, {Key: "a", Value: int32(j)}})
+					}
 					list = append(list, d)
 				}
 				if _, err := coll.InsertMany(ctx, list); err != nil {
 					util.Die("insert: %v", err)
+				}
+				for k, id := range gone {
+					if k%2 == 0 {
+						coll.DeleteOne(ctx, bson.D{{Key: "_id", Value: id}})
+					}
+				}
+				if len(gone) > 0 {
+					coll.DeleteMany(ctx, bson.D{{Key: "_id", Value: bson.D{{Key: "$in", Value: bson.A(gone)}}}})
 				}
 			}
 		}
